@@ -283,7 +283,15 @@ func (root *Root) addTypes(types ...Type) error {
 	return root.ReplaceRefs()
 }
 
-func (root *Root) addExtends(extends ...*Extend) (err error) {
+// addExtends extends the types of the root. The undo function returned takes
+// the extensions made back, also the ones made before an error.
+func (root *Root) addExtends(extends ...*Extend) (undo func(), err error) {
+	var undos []func()
+	undo = func() {
+		for i := len(undos) - 1; 0 <= i; i-- {
+			undos[i]()
+		}
+	}
 	for _, x := range extends {
 		if err = root.replaceTypeRefs(x.Adds); err != nil {
 			return
@@ -302,16 +310,19 @@ func (root *Root) addExtends(extends ...*Extend) (err error) {
 			if len(name) == 0 {
 				name = schemaStr
 			}
-			return fmt.Errorf("%s can not be extended because it was %w", name, ErrNotFound)
+			return undo, fmt.Errorf("%s can not be extended because it was %w", name, ErrNotFound)
 		}
 		if reflect.TypeOf(x.Adds) != reflect.TypeOf(cur) {
-			return fmt.Errorf("%w: %s, a %T can not extend a %T", ErrTypeMismatch, x.Adds.Name(), x.Adds, cur)
+			return undo, fmt.Errorf("%w: %s, a %T can not extend a %T", ErrTypeMismatch, x.Adds.Name(), x.Adds, cur)
+		}
+		if u, ok := cur.(interface{ unextend() func() }); ok {
+			undos = append(undos, u.unextend())
 		}
 		if err = cur.Extend(x.Adds); err != nil {
 			return
 		}
 	}
-	return nil
+	return
 }
 
 // GetType returns the type that matches the provided name or nil if none
@@ -351,13 +362,15 @@ func (root *Root) ParseReader(r io.Reader) error {
 	if err == nil {
 		err = root.addTypes(types...)
 	}
+	unextend := func() {}
 	if err == nil {
-		err = root.addExtends(extends...)
+		unextend, err = root.addExtends(extends...)
 	}
 	if err == nil {
 		err = root.validate()
 	}
 	if err != nil {
+		unextend()
 		root.types = origTypes
 		root.dirs = origDirs
 		root.schema = origSchema
